@@ -714,14 +714,16 @@ def to_sx(n: Node, pod: bool, v) -> str:
             raise Shape("None expected")
         return "( none )"
     if k == "coord":
-        se, _ = mods()
-        cls = getattr(se, a[0]).COORD_CLS
+        se, dt = mods()
+        cls = dt.Quaternion if n.x.get("quat") else getattr(se, a[0]).COORD_CLS
         if pod:
             if not isinstance(v, tuple):
                 raise Shape("tuple expected")
+            comps = tuple(v)
         elif not isinstance(v, cls):
             raise Shape(cls.__name__ + " expected")
-        comps = tuple(v)
+        else:
+            comps = v.data(len(n.ch)) if n.x.get("quat") else tuple(v)
         if len(comps) != len(n.ch):
             raise Shape("component count")
         return "( l " + " ".join(to_sx(c, pod, x) for c, x in zip(n.ch, comps)) + " )"
@@ -761,6 +763,7 @@ def to_sx(n: Node, pod: bool, v) -> str:
             return "( none )"
         return to_sx(n.ch[0], pod, v)
     if k == "typed":
+        v = getattr(v, "__wrapped__", v)          # lazy TypedBytes: force the proxy
         if v is None and a[1]:
             return "( none )"
         return to_sx(n.ch[0], pod, v)
@@ -966,7 +969,9 @@ def from_sx(n: Node, x, pod=False):
             return out + [0] * (len(items) - len(n.ch))
         if k == "coord":
             comps = [from_sx(c, i, pod) for c, i in zip(n.ch, items)]
-            return tuple(comps) if pod else getattr(se, a[0]).COORD_CLS(*comps)
+            if pod:
+                return tuple(comps)
+            return dt.Quaternion(*comps) if n.x.get("quat") else getattr(se, a[0]).COORD_CLS(*comps)
         if k == "coll":
             return [from_sx(n.ch[0], i, pod) for i in items]
         if k == "lenswitch":
